@@ -345,7 +345,7 @@ def union_eq_history(rnd, first_id):
     r.ensure(outer)
     cs = codec.load(r.text({}), mode, rnd.random() < 0.5)
     T = getattr(cs, t["name"])
-    pool = [bytes(rnd.choice([0, 1, 2]) for _ in range(8)) for _ in range(3)]
+    pool = [bytes(rnd.choice([0, 1, 2]) for _ in range(8)) for _ in range(2)] + [bytes(8)]
     events, rid, live, next_iid = [], first_id, {}, 1
     for _ in range(7):
         base = {"cs": 1, "type": t, "mode": mode, "consts": {"_": 0}}
@@ -355,6 +355,9 @@ def union_eq_history(rnd, first_id):
             live[next_iid] = (o, t)
             ev = dict(base, ev="Parse", iid=next_iid, input=list(data), obs={"status": "ok", "v": A.project(o, t)})
             next_iid += 1
+        elif rnd.random() < 0.3:
+            i = rnd.choice(list(live))
+            ev = dict(base, ev="Bool", iid=i, obs={"result": bool(live[i][0])})
         else:
             i, j = rnd.choice(list(live)), rnd.choice(list(live))
             a, b = live[i][0], live[j][0]
